@@ -1,11 +1,14 @@
 package harness
 
 import (
+	"bufio"
 	"bytes"
 	"encoding/json"
 	"errors"
 	"fmt"
 	"io"
+	"strings"
+	"testing/iotest"
 
 	"github.com/ulikunitz/lz"
 	"pgregory.net/rapid"
@@ -23,6 +26,54 @@ type WrapCase struct {
 	// Pre: the wrapped parser is first used on another reader for some
 	// calls and then Reset to the reader of the case (C13).
 	Pre *WrapPre `json:"pre,omitempty"`
+	// Multi: the same data also comes through an io.MultiReader whose parts
+	// are readers of several standard kinds (some implement io.WriterTo, some
+	// do not, some return io.EOF together with their last bytes).
+	Multi []MultiPart `json:"multi,omitempty"`
+}
+
+// MultiPart is one part of the io.MultiReader: N bytes (the last part takes
+// the rest) behind a reader of the given kind.
+type MultiPart struct {
+	N    int    `json:"n"`
+	Kind string `json:"kind"`
+}
+
+type onlyReader struct{ r io.Reader }
+
+func (o onlyReader) Read(p []byte) (int, error) { return o.r.Read(p) }
+
+func multiReader(data []byte, parts []MultiPart) io.Reader {
+	var rs []io.Reader
+	pos := 0
+	for i, pt := range parts {
+		n := pt.N
+		if n < 0 {
+			n = 0
+		}
+		if pos+n > len(data) || i == len(parts)-1 {
+			n = len(data) - pos
+		}
+		chunk := data[pos : pos+n]
+		pos += n
+		switch pt.Kind {
+		case "bytes":
+			rs = append(rs, bytes.NewReader(chunk))
+		case "limit":
+			rs = append(rs, io.LimitReader(bytes.NewReader(chunk), int64(len(chunk))))
+		case "plain":
+			rs = append(rs, onlyReader{bytes.NewReader(chunk)})
+		case "bufio":
+			rs = append(rs, bufio.NewReaderSize(onlyReader{bytes.NewReader(chunk)}, 16))
+		case "dataerr":
+			rs = append(rs, iotest.DataErrReader(bytes.NewReader(chunk)))
+		case "onebyte":
+			rs = append(rs, iotest.OneByteReader(bytes.NewReader(chunk)))
+		default:
+			rs = append(rs, strings.NewReader(string(chunk)))
+		}
+	}
+	return io.MultiReader(rs...)
 }
 
 // WrapPre is the prior use of a WrappedParser before WrappedParser.Reset.
@@ -71,7 +122,9 @@ func (x *wrapExec) first(prop string) (string, bool) {
 
 // runWrap executes the case. With reader == nil the scripted reader of the
 // case is used; otherwise the given reader (differential on chunking).
-func runWrap(c WrapCase, plain bool) (*wrapExec, error) {
+func runWrap(c WrapCase, plain bool) (*wrapExec, error) { return runWrapMode(c, plain, false) }
+
+func runWrapMode(c WrapCase, plain, multi bool) (*wrapExec, error) {
 	x := &wrapExec{c: c, cc: c.Cfg.Completed()}
 	var p lz.Parser
 	var err error
@@ -91,7 +144,9 @@ func runWrap(c WrapCase, plain bool) (*wrapExec, error) {
 	data := []byte(c.R.Data)
 	var sr *scriptReader
 	var rd io.Reader
-	if plain {
+	if multi {
+		rd = multiReader(data, c.Multi)
+	} else if plain {
 		rd = bytes.NewReader(data)
 	} else {
 		sr = newScriptReader(c.R)
@@ -360,6 +415,14 @@ func genWrapCase0(t *rapid.T, kind string, maxBuf int, faults, eqShrink, nilCall
 		c.Flags = append(c.Flags, genFlags(t, histOpts{ntl: 30}))
 	}
 	c.Tail = 3
+	if rapid.IntRange(0, 3).Draw(t, "multi") == 0 {
+		for k := rapid.IntRange(1, 4).Draw(t, "nparts"); k > 0; k-- {
+			c.Multi = append(c.Multi, MultiPart{
+				N:    genSize(t, "partLen", len(data)+1, 0, 1, cc.BlockSize, bsz),
+				Kind: rapid.SampledFrom([]string{"bytes", "limit", "plain", "bufio", "dataerr", "onebyte", "strings"}).Draw(t, "partKind"),
+			})
+		}
+	}
 	if nilCalls {
 		k := rapid.IntRange(0, 3).Draw(t, "nnil")
 		for i := 0; i < k; i++ {
@@ -399,6 +462,18 @@ func checkWrap(prop string, c WrapCase, differential bool) (msg string, bad bool
 		}
 		if ok, why := sameBlocks(x.blocks, y.blocks); !ok && !y.dead {
 			return "block sequence depends on the chunking of the reader: " + why, true, x, nil
+		}
+		if len(c.Multi) > 0 {
+			z, err := runWrapMode(c, false, true)
+			if err != nil {
+				return "", false, x, err
+			}
+			if m, b := z.first(prop); b {
+				return "with an io.MultiReader of standard readers: " + m, true, x, nil
+			}
+			if ok, why := sameBlocks(y.blocks, z.blocks); !ok && !z.dead {
+				return "block sequence through an io.MultiReader of standard readers differs from bytes.Reader: " + why, true, x, nil
+			}
 		}
 	}
 	return "", false, x, nil
